@@ -10,12 +10,15 @@
    one and a declared symbol of the same name, scopes end with their closing parenthesis); a free x has no meaning.
    Machine(tokens) is what the code computes.  Checked:
      Agree     for terms whose lets all have ONE binding the machine returns exactly Ref (value or error);
-     MultiErr  for terms with a let of two bindings the machine returns an error, never a wrong value
-               (design-level image of KF-C14-let-multi: z3 prints such lets for large arrays).
+     MultiErr  (as found) for terms with a let of two bindings the machine returns an error, never a wrong value
+               (design-level image of the former finding KF-C14-let-multi: z3 prints such lets for large arrays);
+     AgreeAll  (repaired) the machine returns exactly Ref for every term.
    The harness replays the same terms, written as text over bvxor / #b.. / declared a, b, through the real parse_expr;
    Trace_SmtLet.tla compares the outcome class and the value with this model's prediction. *)
 EXTENDS Naturals, Sequences, FiniteSets, TLC, Json
-CONSTANT Full            \* TRUE: all terms of depth 2; FALSE: depth 2 with one deep operand
+CONSTANTS Full,          \* TRUE: all terms of depth 2; FALSE: depth 2 with one deep operand
+          Repaired       \* FALSE: the reader as found (a let takes one binding); TRUE: after the repair in /repo - the bindings of
+                         \* a let are collected and come into scope together when the binding list is closed
 
 Names  == {"a", "b", "x"}
 Decl   == {"a", "b"}
@@ -61,9 +64,10 @@ Toks(t) ==
          IN  << "(", "let", "(" >> \o all \o << ")" >> \o Toks(t.body) \o << ")" >>
 
 (* ---- the machine: stack items are records [i |-> kind, ...]; st = [lets, undo] ---- *)
-IOpen(b)   == [i |-> "open", let |-> b]
+IOpen(c)   == [i |-> "open", lets |-> c]               \* c = number of let bindings to pop when this scope closes
 ILet(p)    == [i |-> "let", parens |-> p]
-IMissing   == [i |-> "missing"]
+IMissing   == [i |-> "missing"]                          \* as found: `(let (( n v )` with the binding already pushed
+IBind(bs)  == [i |-> "bind", bs |-> bs]                  \* repaired: bindings read so far, not yet in scope
 IExpr(e)   == [i |-> "expr", e |-> e]
 ISym(n)    == [i |-> "sym", n |-> n]
 Get(st, n) == IF n \in DOMAIN st.lets THEN st.lets[n] ELSE IF n \in Decl THEN [k |-> "sym", n |-> n] ELSE ERR
@@ -75,6 +79,10 @@ PopLet(st) ==
   [lets |-> IF u.op = "remove" THEN [nm \in DOMAIN st.lets \ {u.n} |-> st.lets[nm]]
             ELSE [nm \in DOMAIN st.lets \cup {u.n} |-> IF nm = u.n THEN u.e ELSE st.lets[nm]],
    undo |-> SubSeq(st.undo, 1, Len(st.undo) - 1)]
+RECURSIVE PopN(_, _)
+PopN(st, c) == IF c = 0 THEN st ELSE PopN(PopLet(st), c - 1)
+RECURSIVE PushAll(_, _, _)
+PushAll(st, bs, j) == IF j > Len(bs) THEN st ELSE PushAll(PushLet(st, bs[j].n, bs[j].e), bs, j + 1)
 \* early_parse_single_token: literals, `let`, a known symbol (unless the token is the name of a new binding), else Sym
 Single(st, tok, lookup) ==
   CASE tok = "c0" -> IExpr(C(0))
@@ -90,7 +98,8 @@ Pattern(st, pat) ==
        LET p == AsExpr(st, pat[2]) q == AsExpr(st, pat[3]) IN
        IF p = ERR \/ q = ERR THEN [ok |-> FALSE, item |-> IMissing, st |-> st] ELSE [ok |-> TRUE, item |-> IExpr(F(p, q)), st |-> st]
   ELSE IF Len(pat) = 3 /\ pat[1] = ILet(2) /\ pat[2].i = "sym" /\ pat[3].i = "expr" THEN
-       [ok |-> TRUE, item |-> IMissing, st |-> PushLet(st, pat[2].n, pat[3].e)]
+       (IF Repaired THEN [ok |-> TRUE, item |-> IBind(<< [n |-> pat[2].n, e |-> pat[3].e] >>), st |-> st]
+        ELSE [ok |-> TRUE, item |-> IMissing, st |-> PushLet(st, pat[2].n, pat[3].e)])
   ELSE [ok |-> FALSE, item |-> IMissing, st |-> st]
 LastOpen(stack) == IF \E p \in 1..Len(stack) : stack[p].i = "open"
                    THEN CHOOSE p \in 1..Len(stack) : stack[p].i = "open" /\ \A q \in (p+1)..Len(stack) : stack[q].i # "open" ELSE 0
@@ -99,21 +108,26 @@ Step(m, tok) ==
   IF m.res # "run" THEN m
   ELSE
   LET stack == m.stack
-      top   == IF Len(stack) > 0 THEN stack[Len(stack)] ELSE IMissing
+      n     == Len(stack)
+      top   == IF n > 0 THEN stack[n] ELSE IMissing
+      more  == Repaired /\ n >= 4 /\ stack[n-3].i = "bind" /\ stack[n-2] = ILet(2) /\ stack[n-1].i = "sym" /\ stack[n].i = "expr"
       m2 == CASE tok = "(" ->
-                   IF Len(stack) > 0 /\ top.i = "let"
-                   THEN [m EXCEPT !.stack = SubSeq(stack, 1, Len(stack) - 1) \o << ILet(top.parens + 1) >>]
-                   ELSE [m EXCEPT !.stack = Append(stack, IOpen(FALSE))]
+                   IF n > 0 /\ top.i = "let" THEN [m EXCEPT !.stack = SubSeq(stack, 1, n - 1) \o << ILet(top.parens + 1) >>]
+                   ELSE IF n > 0 /\ top.i = "bind" THEN [m EXCEPT !.stack = Append(stack, ILet(2))]      \* another binding of the same let
+                   ELSE [m EXCEPT !.stack = Append(stack, IOpen(0))]
              [] tok = ")" ->
-                   IF Len(stack) > 0 /\ top.i = "missing"
-                   THEN [m EXCEPT !.stack = SubSeq(stack, 1, Len(stack) - 1) \o << IOpen(TRUE) >>]
+                   IF n > 0 /\ top.i = "missing" THEN [m EXCEPT !.stack = SubSeq(stack, 1, n - 1) \o << IOpen(1) >>]
+                   ELSE IF n > 0 /\ top.i = "bind"
+                        THEN [m EXCEPT !.stack = SubSeq(stack, 1, n - 1) \o << IOpen(Len(top.bs)) >>, !.st = PushAll(m.st, top.bs, 1)]
+                   ELSE IF more
+                        THEN [m EXCEPT !.stack = SubSeq(stack, 1, n - 4) \o << IBind(Append(stack[n-3].bs, [n |-> stack[n-1].n, e |-> stack[n].e])) >>]
                    ELSE LET p == LastOpen(stack) IN
                         IF p = 0 THEN [m EXCEPT !.res = "err"]            \* orphan ")": an error at the next token or at the end
-                        ELSE LET r == Pattern(m.st, SubSeq(stack, p + 1, Len(stack))) IN
+                        ELSE LET r == Pattern(m.st, SubSeq(stack, p + 1, n)) IN
                              IF ~r.ok THEN [m EXCEPT !.res = "err"]
                              ELSE [stack |-> Append(SubSeq(stack, 1, p - 1), r.item),
-                                   st |-> IF stack[p].let THEN PopLet(r.st) ELSE r.st, res |-> "run", val |-> ERR]
-             [] OTHER -> [m EXCEPT !.stack = Append(stack, Single(m.st, tok, ~(Len(stack) > 0 /\ top = ILet(2))))]
+                                   st |-> PopN(r.st, stack[p].lets), res |-> "run", val |-> ERR]
+             [] OTHER -> [m EXCEPT !.stack = Append(stack, Single(m.st, tok, ~(n > 0 /\ top = ILet(2))))]
   IN  IF m2.res = "run" /\ Len(m2.stack) = 1 /\ m2.stack[1].i = "expr" THEN [m2 EXCEPT !.res = "done", !.val = m2.stack[1].e] ELSE m2
 RECURSIVE Run(_, _, _)
 Run(m, toks, i) == IF i > Len(toks) THEN m ELSE Run(Step(m, toks[i]), toks, i + 1)
@@ -125,6 +139,7 @@ VARIABLE tm
 Init == tm \in T2
 Next == UNCHANGED tm
 Agree    == HasMulti(tm) \/ Machine(Toks(tm)) = Ref(tm, TopEnv)
-MultiErr == HasMulti(tm) => Machine(Toks(tm)) = ERR
+MultiErr == (~Repaired /\ HasMulti(tm)) => Machine(Toks(tm)) = ERR
+AgreeAll == Repaired => Machine(Toks(tm)) = Ref(tm, TopEnv)
 Emit     == PrintT(<<"PV", ToJson(tm)>>)
 =============================================================================
